@@ -31,6 +31,9 @@ RULE = ('per shipped listing: all ordered non-empty subsets of its tables (one i
         'integer index, negative integer index (-rows for the first, interior, -1 for the last), reversed name where the table allows it} x call forms {tuple, one-element list}, plus all items '
         'of a table in one call, in order and reversed; every starting index x {one item per table singly, first two '
         'tables, all tables}; short in {True, False} where the file has short output; selections without a valid item. '
+        'Files with short output: for every ordered pair of tables every combination {row printed in the table\'s SHORT output, row not '
+        'printed there} for the two items, and each such item alone, short on/off. After every agreeing call the returned arrays '
+        'are modified in place and the reader\'s own times/steps must not change. '
         'Successive calls on one reader: every ordered pair (thorough: and triple) with repetition of the selections {each table, every '
         'pair of tables, all tables} x short on/off, rows and columns moved from call to call. '
         'A case is one history() call on a fresh reader, or one such sequence of calls on one fresh reader (every call judged); non-trivial = it names at least one existing cell; distinct = '
@@ -45,6 +48,8 @@ ASSUMPTIONS = ['expected values come from the reader\'s own tables while steppin
                'space: which of them a name or a SHORT-table row refers to is not defined',
                'selections without any valid item are explored for termination and for leaving the reader unchanged; '
                'their return value and whether they raise are not fixed by the statement',
+               'the arrays history() returns belong to the caller: modifying them in place must not change the reader (judged on '
+               'the reader\'s public times, fulltimes, steps, fullsteps); if it does, they are put back and exploration goes on',
                'a one-element list may return either the bare (times, values) pair or a one-element list of it',
                'non-termination = more than 20 x lines x (result sets + 2) readline calls in one history() call, or more '
                'than 4 x lines + 1000 consecutive reads at end of file',
@@ -320,6 +325,44 @@ def calls_subsets(ctx):
                 sel.append((SPEC[t], mid_key(tb), tb['cols'][rank[t] % len(tb['cols'])]))
             for sh in shorts(ctx):
                 yield {'selection': sel, 'form': 'list', 'short': sh, 'start': 0}
+    for c in calls_short_membership(ctx):
+        yield c
+
+
+def calls_short_membership(ctx):
+    """Files with short output: selections built from the SHORT tables' own membership.  For every ordered pair of
+    tables, every combination of {a row printed in the table's short output, a row not printed there} for the two
+    items (a table without short output only has rows 'not printed'), with short on and off; and each such item alone."""
+    if not ctx.has_short:
+        return
+    member = {}
+    for t in ctx.tablenames:
+        tb = ctx.tables[t]
+        kts = ctx.keytext.get(t)
+        printed = set()
+        for per in ctx.short_rows:
+            if per and t in per:
+                printed |= set(per[t])
+        ins = [r for r in range(len(tb['rows'])) if kts and kts[r] in printed and tb['rows'][r] not in tb['dups']]
+        outs = [r for r in range(len(tb['rows'])) if not (kts and kts[r] in printed) and tb['rows'][r] not in tb['dups']]
+        member[t] = {}
+        if ins:
+            member[t]['in-short'] = ins[len(ins) // 2]
+        if outs:
+            member[t]['not-in-short'] = outs[len(outs) // 2]
+
+    def item(t, kind):
+        tb = ctx.tables[t]
+        return (SPEC[t], tb['rows'][member[t][kind]], tb['cols'][0])
+    for t in ctx.tablenames:
+        for kind in sorted(member[t]):
+            for sh in (True, False):
+                yield {'selection': [item(t, kind)], 'form': 'list', 'short': sh, 'start': 0}
+    for t1, t2 in itertools.permutations(ctx.tablenames, 2):
+        for k1 in sorted(member[t1]):
+            for k2 in sorted(member[t2]):
+                for sh in (True, False):
+                    yield {'selection': [item(t1, k1), item(t2, k2)], 'form': 'list', 'short': sh, 'start': 0}
 
 
 def calls_items(ctx):
@@ -526,7 +569,36 @@ def eval_call(ctx, case, lst):
                         '%s: item %r is paired with times %r..., the result sets visited have %r...'
                         % (desc, it, tg[:4], te[:4])))
             break
+    if not out:
+        out += scribble_check(ctx, lst, results, desc, sim)
     return out, ('violates' if out else 'agrees')
+
+
+def scribble_check(ctx, lst, results, desc, sim):
+    """What history() returns belongs to the caller: scaling the returned times (t *= 1/86400 is what callers do) or
+    overwriting the returned values in place must not change the reader's own times and steps.  Judged by effect:
+    the reader's public arrays before and after.  If they did change, they are put back (so that what lies behind
+    this defect is still explored) and the violation is reported."""
+    names = ('times', 'fulltimes', 'steps', 'fullsteps')
+    saved = dict((n, np.array(getattr(lst, n), copy=True)) for n in names)
+    for tg, vg in results:
+        for arr in (tg, vg):
+            try:
+                if isinstance(arr, np.ndarray) and arr.dtype.kind == 'f' and arr.size:
+                    arr *= 2.0
+                    arr += 1.0
+            except ValueError:
+                pass                    # a read-only array is a fine way of protecting it
+    changed = [n for n in names if np.asarray(getattr(lst, n)).shape != saved[n].shape
+               or np.asarray(getattr(lst, n)).tobytes() != saved[n].tobytes()]
+    if not changed:
+        return []
+    for n in changed:
+        setattr(lst, n, saved[n])
+    # one code path for every simulator: one signature
+    return [('C06|history|returned-arrays-are-the-readers-own',
+             '%s: modifying the returned arrays in place (t *= 2; t += 1) changed the reader\'s %s'
+             % (desc, ', '.join(changed)))]
 
 
 def eval_case(ctx, case, lst):
@@ -535,15 +607,20 @@ def eval_case(ctx, case, lst):
     signature suffix |second-call / |third-call; the sequence stops there (the reader is no longer trusted)."""
     if 'sequence' not in case:
         return eval_call(ctx, case, lst)
+    carried = []
     for n, call in enumerate(case['sequence'], 1):
         viol, outcome = eval_call(ctx, call, lst)
+        if viol and all('|returned-arrays-are-the-readers-own' in sig for sig, _ in viol):
+            # remedied inside eval_call (the reader's arrays were put back): report once, go on with the sequence
+            carried += [v for v in viol if v[0] not in [c[0] for c in carried]]
+            continue
         if viol:
             if n > 1:
                 before = '; '.join(repr([it[0] for it in c['selection']]) for c in case['sequence'][:n - 1])
                 viol = [('%s|%s' % (sig, ORDINAL[n]), '%s [after history() calls on the same reader for tables %s]' % (what, before))
                         for sig, what in viol]
-            return viol, outcome
-    return [], 'agrees'
+            return carried + viol, outcome
+    return carried, ('violates' if carried else 'agrees')
 
 
 def _shape(res):
@@ -598,7 +675,7 @@ def _run_unit(unit, tier, rec):
             rec.count('ordered_subset_calls_%s' % ctx.sim)
             if outcome == 'agrees':
                 rec.count('ordered_subset_calls_agreeing_with_stepping_%s' % ctx.sim)
-        if outcome == 'agrees' and ('sequence' in case or len(case['selection']) > 1):
+        if 'sequence' in case or len(case['selection']) > 1:
             rec.sample({'file': key, 'call': js, 'outcome': outcome})
     rec.count('calls_%s' % part, ncalls)
     if part == PARTS[0]:
